@@ -35,7 +35,8 @@ import sys
 
 from vlib import env
 
-THEOREMS = []
+THEOREMS = ["remote_step_refines_local", "remote_step_refines_local_partial", "parent_map_null_dropped_witness",
+            "remote_run_refines_local"]
 RULE = ("case = an operation script of <= 20 operations (commit in source trees / through a lightweight checkout, "
         "merge, push, pull, fetch, tag set/delete, config set/get, lock/unlock with tokens, set tip, "
         "get_parent_map, revision / tree / testament reads) drawn from the PRNG; it is executed on a local path and "
@@ -673,7 +674,7 @@ EQUIV_ERRORS = {
 }
 
 
-def run_case(ctx, srv, script, label="general"):
+def run_case(ctx, srv, script, label="general", fx=False):
     srv.n += 1
     cid = "c%d_%d" % (os.getpid(), srv.n)
     ltop = env.fresh_dir("c32L")
@@ -686,6 +687,7 @@ def run_case(ctx, srv, script, label="general"):
     changed = any(o[0] in REMOTE_OPS for o in script)
     ctx.case(case, nontrivial=changed)
     bad = None
+    res_l, res_r, sl, sr = [], [], None, None
     try:
         for i, op in enumerate(script):
             ctx.count("op:" + op[0])
@@ -694,18 +696,23 @@ def run_case(ctx, srv, script, label="general"):
                 continue
             rl = do_op(L, op, i)
             rr = do_op(R, op, i)
+            res_l.append(rl)
+            res_r.append(rr)
             ctx.traces += 1
             if isinstance(rl, str) and rl.startswith("E:"):
                 ctx.count("err:" + rl)
             if EQUIV_ERRORS.get(rl, rl) != EQUIV_ERRORS.get(rr, rr) if isinstance(rl, str) and isinstance(rr, str) else rl != rr:
                 bad = (i, "result", rl, rr)
-                break
+                if label != "modelled":
+                    break
             last = i == len(script) - 1
             sl, sr = readback(L, full=last), readback(R, full=last)
             if sl != sr:
                 keys = [k for k in sl if sl[k] != sr.get(k)]
                 bad = (i, "state:" + ",".join(keys), {k: sl[k] for k in keys}, {k: sr[k] for k in keys})
                 break
+        if label == "modelled" and sl is not None and (bad is None or bad[1] == "result"):
+            model_compare(ctx, case, W, script, res_l, res_r, sl, sr, fx)
     finally:
         L.close()
         R.close()
@@ -719,10 +726,106 @@ def run_case(ctx, srv, script, label="general"):
     return bad
 
 
+# --------------------------------------------------------------------------
+# T2: the modelled stream against Model/C32.lean (local step and remote step)
+
+def hx(s):
+    b = s if isinstance(s, bytes) else s.encode("utf-8")
+    return b.hex() if b else "-"
+
+
+def enc_op(op):
+    k = op[0]
+    if k == "m_tip_set":
+        return "ts:%d:%s" % (op[1], hx(op[2]))
+    if k == "m_tag_set":
+        return "tg:%s:%s" % (hx(op[1]), hx(op[2]))
+    if k == "m_tag_del":
+        return "td:%s" % hx(op[1])
+    if k == "m_tag_dict":
+        return "tD"
+    if k == "m_conf_set":
+        return "cs:%s:%s" % (hx(op[1]), hx(op[2]))
+    if k == "m_conf_get":
+        return "cg:%s" % hx(op[1])
+    if k == "m_lock_leave":
+        return "ll"
+    if k == "m_relock_release":
+        return "rr:%s" % ("T" if op[1] else "F")
+    if k == "m_tip_set_tok":
+        return "tt:%s:%d:%s" % ("T" if op[1] else "F", op[2], hx(op[3]))
+    if k == "m_parent_map":
+        return "pm:%s" % ",".join(hx(x) for x in op[1])
+    if k == "m_tip":
+        return "tp"
+    if k == "m_fetch":
+        return "fe:%s" % hx(op[1])
+    raise AssertionError(op)
+
+
+def enc_dict(d):
+    return ",".join(sorted("%s=%s" % (hx(k), hx(v)) for k, v in d.items())) or "-"
+
+
+def enc_res(op, r):
+    k = op[0]
+    if isinstance(r, str) and r.startswith("E:"):
+        return r
+    if k == "m_tag_dict":
+        return "tags=" + enc_dict(r)
+    if k == "m_conf_get":
+        return "val=" + ("~" if r is None else hx(r))
+    if k == "m_parent_map":
+        return "pm=" + (",".join(sorted("%s=%s" % (hx(a), "+".join(hx(p) for p in ps) or "~") for a, ps in r.items())) or "-")
+    if k == "m_tip":
+        return "info=%d:%s" % (r[0], hx(r[1]))
+    return r          # ok / token
+
+
+def enc_state(st, names):
+    conf = {k: v for k, v in st["conf"].items() if k in names and isinstance(v, str)}
+    return "tip=%d:%s tags=%s conf=%s lock=%s revs=%s" % (
+        st["tip"][0], hx(st["tip"][1]), enc_dict(st["tags"]), enc_dict(conf), "T" if st["locked"][0] else "F",
+        ",".join(sorted(hx(r) for r in st["revs"])) or "-")
+
+
+def model_compare(ctx, case, W, script, res_l, res_r, sl, sr, fx):
+    repo = W.A.branch.repository
+    with repo.lock_read():
+        revs = sorted(repo.all_revision_ids())
+        pm = repo.get_parent_map(revs)
+    src = ";".join("%s:%s" % (hx(r), ",".join(hx(p) for p in pm[r] if p != b"null:") or "~") for r in revs) or "-"
+    mops = [o for o in script if o[0] not in WORLD_OPS]
+    names = {o[1] for o in mops if o[0] == "m_conf_set"}
+    line = "run %s %s %s" % ("T" if fx else "F", src, ";".join(enc_op(o) for o in mops) or "-")
+    reply = ctx.model([line])[0]
+    impl_l = (";".join(enc_res(o, r) for o, r in zip(mops, res_l)) or "-") + "|" + enc_state(sl, names)
+    impl_r = (";".join(enc_res(o, r) for o, r in zip(mops, res_r)) or "-") + "|" + enc_state(sr, names)
+    impl = "L=%s R=%s" % (impl_l, impl_r)
+    ctx.traces += 1
+    if impl != reply:
+        ctx.mismatch(case, impl, reply, line=line)
+
+
+def probe_fx(srv):
+    """does RemoteRepository.get_parent_map keep the null: entry next to other keys?"""
+    from breezy.branch import Branch
+    from breezy.controldir import ControlDir
+    d = os.path.join(srv.root, "probe")
+    os.makedirs(d, exist_ok=True)
+    ControlDir.create_branch_convenience(os.path.join(d, "t"), force_new_tree=False, format=_fmt())
+    b = Branch.open(srv.url + "probe/t")
+    with b.lock_read():
+        r = b.repository.get_parent_map([b"null:", b"absent"])
+    b.controldir.transport.disconnect()
+    shutil.rmtree(d, ignore_errors=True)
+    return b"null:" in r
+
+
 def _family(script, i, what, l, r):
     """classify a failing step by the concrete operation and difference"""
     op = script[i]
-    if (op[0] == "parent_map" and what == "result" and isinstance(l, dict) and isinstance(r, dict)
+    if (op[0] in ("parent_map", "m_parent_map") and what == "result" and isinstance(l, dict) and isinstance(r, dict)
             and "null:" in op[1] and len(set(op[1])) > 1
             and "null:" in l and "null:" not in r and {k: v for k, v in l.items() if k != "null:"} == r):
         # get_parent_map([..., b"null:", ...]) through the server loses the null: entry
@@ -735,29 +838,79 @@ def _family(script, i, what, l, r):
     return None
 
 
+class _Rec:
+    """what a worker process records for the parent's ctx"""
+
+    def __init__(self):
+        self.cases, self.counts, self.violations, self.mismatches, self.traces = [], {}, [], [], 0
+        self._driver = None
+
+    def case(self, case, nontrivial=True):
+        self.cases.append((case, nontrivial))
+
+    def count(self, key, n=1):
+        self.counts[key] = self.counts.get(key, 0) + n
+
+    def violation(self, case, what, family=None):
+        self.violations.append((case, what, family))
+
+    def mismatch(self, case, impl, model, line=None, tie="T2"):
+        self.mismatches.append((case, impl, model, line))
+
+    def model(self, lines):
+        from vlib import lean
+        if self._driver is None:
+            self._driver = lean.Driver("C32")
+        return self._driver.ask(list(lines))
+
+
+def _worker(job):
+    """one chunk of cases with its own server (module level: runs in a forked process)"""
+    fx, items = job
+    rec = _Rec()
+    srv = Srv()
+    try:
+        for label, script in items:
+            run_case(rec, srv, script, label=label, fx=fx)
+    finally:
+        srv.stop()
+    return rec.cases, rec.counts, rec.violations, rec.mismatches, rec.traces
+
+
 def run(ctx):
     srv = Srv()
     try:
-        n = ctx.pick(25, 300)
-        for _ in range(n):
-            script = gen_script(ctx.rng, ctx.rng.randint(6, 20))
-            run_case(ctx, srv, script)
-        for _ in range(ctx.pick(25, 300)):
-            script = gen_model_script(ctx.rng, ctx.rng.randint(8, 20))
-            run_case(ctx, srv, script, label="modelled")
+        fx = probe_fx(srv)
     finally:
         srv.stop()
+    ctx.extra["get_parent_map_variant"] = "null: kept (fixed)" if fx else "null: dropped (as found)"
+    items = [("general", gen_script(ctx.rng, ctx.rng.randint(6, 20))) for _ in range(ctx.pick(24, 300))]
+    items += [("modelled", gen_model_script(ctx.rng, ctx.rng.randint(8, 20))) for _ in range(ctx.pick(24, 300))]
+    nproc = 6
+    chunks = [(fx, items[i::nproc]) for i in range(nproc)]
+    for cases, counts, viols, mism, traces in ctx.pmap(_worker, [c for c in chunks if c[1]], procs=nproc, chunksize=1):
+        for case, nt in cases:
+            ctx.case(case, nontrivial=nt)
+        for k, v in counts.items():
+            ctx.count(k, v)
+        for case, what, fam in viols:
+            ctx.violation(case, what, family=fam)
+        for case, impl, model, line in mism:
+            ctx.mismatch(case, impl, model, line=line)
+        ctx.traces += traces
+    ctx.extra["scripts"] = dict(general=sum(1 for l, _ in items if l == "general"),
+                                modelled=sum(1 for l, _ in items if l == "modelled"))
 
 
 def replay(ctx, case):
     srv = Srv()
     try:
-        script = [tuple(o) for o in case["script"]]
-        script = [tuple(tuple(x) if isinstance(x, list) and x and isinstance(x[0], list) else x for x in o) for o in script]
-        bad = run_case(ctx, srv, _detuple(case["script"]))
+        fx = probe_fx(srv)
+        bad = run_case(ctx, srv, _detuple(case["script"]), label=case.get("kind", "general"), fx=fx)
     finally:
         srv.stop()
-    return dict(case=case, impl=str(bad), model=None, oracle_failures=[v["what"] for v in ctx.violations])
+    return dict(case=case, impl=str(bad), model=[m for m in ctx.mismatches if m][:3],
+                oracle_failures=[v["what"] for v in ctx.violations])
 
 
 def _detuple(script):
